@@ -76,6 +76,8 @@ def run(case, j):
     mu0, var0 = _wmoments(X, w)
     if np.any(var0 < 1e-20 * (1 + mu0**2)) or (w is not None and (np.asarray(w) > 0).sum() < 2):
         raise Skip("degenerate-variance")
+    if (cw and np.any(var0 < 1e-10)) or (not cw and var0.sum() < 1e-10):
+        raise Skip("variance-within-100x-of-the-default-atol")  # the documented rejection may legitimately fire
     kw = dict(with_mean=wm, with_std=ws, column_wise=cw)
     est = SFS(**kw)
     j.lib("fit", est.fit, X, sample_weight=None if w is None else w.copy())
